@@ -24,7 +24,8 @@
    so var_f below performs the four operations with `fl`, round-to-nearest-even to 53 significant bits
    (binary64 without exponent limits: no overflow / underflow is modelled, statistics are far from both),
    and nu_num = fl(fl(var1/n1) + fl(var2/n2)) likewise, so that the tests `denom > 0.0` and
-   `nu_denom > 0.0` are decided exactly as the code decides them.  The remaining operations (sqrt,
+   `nu_denom > 0.0` are decided exactly as the code decides them.  For the same reason the means and their
+   difference are the binary64 ones (mean_f, mdiff_f: sign of t, direction, log2_fold).  The remaining operations (sqrt,
    quotients of non-cancelling quantities) stay exact rationals: the tie compares them to 1e-12.
    THE P-VALUE ORACLE IS A FUNCTION OF THE MODELLED STATISTIC (defect A6): t_cdf : tnu -> option Z stands for
    scipy.stats.t.cdf(t, df=nu); two genes with the same statistic get the same value and nu matters.
@@ -53,6 +54,7 @@ Definition cstats_of (s : summary) : pres (list cstat) :=
      var = (sumsq - sum**2 / max(1, n)) / max(1, n - 1) *)
 Definition aggregate (ng : nat) (leaves : list summary) : summary := sum_rows ng leaves.
 Definition nmax1 (n : Z) : Z := Z.max 1 n.
+(* the EXACT mean of the stored sum (the code's is mean_f below: one rounded division) *)
 Definition mean_r (D : Z) (c : cstat) : rat := (c_sum c, D * nmax1 (c_n c)).
 (* the EXACT variance of the stored numbers - NOT what the code computes when sumsq*n and sum^2 agree to
    16 digits (see var_f); kept for the contrast (Props/C11.v: c11_welch_constant_gene_noise) *)
@@ -91,9 +93,11 @@ Definition var_f (D : Z) (c : cstat) : rat :=
   let u := fl (rsub (c_sumsq c, D * D) t) in
   fl (rdivz u (nmax1 (c_n c - 1))).
 
-(* mean1 - mean2 *)
-Definition mdiff_r (D : Z) (c1 c2 : cstat) : rat :=
-  (c_sum c1 * nmax1 (c_n c2) - c_sum c2 * nmax1 (c_n c1), D * nmax1 (c_n c1) * nmax1 (c_n c2)).
+(* mu = sum / max(1, n) and mean1 - mean2 AS BINARY64 COMPUTES THEM: for a gene with the same non-dyadic constant
+   in both clusters (0.7 in 9 and in 7 cells) the two stored sums give means that differ by a rounding residue,
+   and t, the direction and log2_fold are computed from that residue *)
+Definition mean_f (D : Z) (c : cstat) : rat := fl (mean_r D c).
+Definition mdiff_f (D : Z) (c1 c2 : cstat) : rat := fl (rsub (mean_f D c1) (mean_f D c2)).
 
 (* ---- _calculate_tt_nu ---- *)
 Inductive ext := EFin (n d : Z) | EInf | ENan.
@@ -127,8 +131,8 @@ Definition welch_gene (D : Z) (c1 c2 : cstat) : tnu :=
     let An := fst A in
     let Ad := snd A in
     (* mean1 - mean2 = dn/dd *)
-    let dn := fst (mdiff_r D c1 c2) in
-    let dd := snd (mdiff_r D c1 c2) in
+    let dn := fst (mdiff_f D c1 c2) in
+    let dd := snd (mdiff_f D c1 c2) in
     let nu := match nu_denom (kterm v1 n1) (kterm v2 n2) with
               | None => (0, 1)
               | Some (Kn, Kd) => (An * An * Kd, Ad * Ad * Kn)
@@ -173,15 +177,15 @@ Definition qdiff_r (c1 c2 : cstat) : rat :=
   let dif := Z.abs (c_ge1 c1 * nmax1 (c_n c2) - c_ge1 c2 * nmax1 (c_n c1)) in
   let den := nmax1 (c_n c1) * nmax1 (c_n c2) in
   if 0 <? fst q then (dif * snd q, den * fst q) else (dif, den).
-Definition fold_r (D : Z) (c1 c2 : cstat) : rat := (Z.abs (fst (mdiff_r D c1 c2)), snd (mdiff_r D c1 c2)).
+Definition fold_f (D : Z) (c1 c2 : cstat) : rat := (Z.abs (fst (mdiff_f D c1 c2)), snd (mdiff_f D c1 c2)).
 
 (* r as an integer over S; None when S is not a multiple of the denominator *)
 Definition to_S (S : Z) (r : rat) : option Z :=
   if (fst r * S) mod (snd r) =? 0 then Some (fst r * S / snd r) else None.
 
 Definition gene_in (D S : Z) (c1 c2 : cstat) : option (score * Z * Z) :=
-  match to_S S (q1_r c1 c2), to_S S (qdiff_r c1 c2), to_S S (fold_r D c1 c2),
-        to_S S (mean_r D c1), to_S S (mean_r D c2) with
+  match to_S S (q1_r c1 c2), to_S S (qdiff_r c1 c2), to_S S (fold_f D c1 c2),
+        to_S S (mean_f D c1), to_S S (mean_f D c2) with
   | Some a, Some b, Some c, Some m1, Some m2 => Some ((a, b, c), m1, m2)
   | _, _, _, _, _ => None
   end.
@@ -290,8 +294,8 @@ Definition run_stat_scores (x : sx) : sx :=
                   (pbind (cstats_of s1) (fun l1 => pbind (cstats_of s2) (fun l2 =>
                      if negb (length l1 =? length l2)%nat then PErr E_SHAPE
                      else POk (map (fun cc : cstat * cstat => let (c1, c2) := cc in
-                                      [mean_r D c1; mean_r D c2; var_f D c1; var_f D c2; pij c1; pij c2;
-                                       q1_r c1 c2; qdiff_r c1 c2; fold_r D c1 c2]) (combine l1 l2)))))
+                                      [mean_f D c1; mean_f D c2; var_f D c1; var_f D c2; pij c1; pij c2;
+                                       q1_r c1 c2; qdiff_r c1 c2; fold_f D c1 c2]) (combine l1 l2)))))
       | _, _, _ => sx_bad
       end
   | _ => sx_bad
